@@ -64,6 +64,64 @@ def nested_td_merges(rnd, n):
     return out
 
 
+def str_subclass_keys(rnd, n):
+    """Dicts whose keys are instances of a str SUBCLASS and which are too large for a TypedDict (len > k): the key type
+    is the subclass, never `str`.  (Small such dicts become TypedDicts in the implementation; the model's values have
+    no str-subclass instances with content, so only the over-the-limit shape is in scope.)"""
+    from harness import fxclasses as fx
+    names = ["a", "b", "c", "d", "e"]
+    atoms = [1, "x", None, 2.5, [1]]
+    out = []
+    for _ in range(n):
+        k = rnd.choice([0, 0, 1, 2])
+        def big():
+            ks = rnd.sample(names, min(len(names), k + rnd.choice([1, 2, 3])))
+            sub = rnd.random() < 0.8
+            return {(fx.MyStr(x) if sub else x): rnd.choice(atoms) for x in ks}
+        wrap = rnd.choice(["plain", "plain", "list", "tuple", "dictval"])
+        vs = []
+        for _ in range(rnd.choice([1, 2, 3])):
+            d = big()
+            vs.append({"plain": d, "list": [d], "tuple": (d, 1), "dictval": {1: d}}[wrap])
+        out.append((k, vs))
+    return out
+
+
+def lying_keys(rnd, n):
+    """Small dicts (within the limit) with a key that only CLAIMS to be a str through __class__: not a TypedDict."""
+    from harness import fxclasses as fx
+    out = []
+    for _ in range(n):
+        k = rnd.choice([1, 2, 3, 10])
+        size = rnd.randrange(1, min(k, 3) + 1)
+        names = rnd.sample(["a", "b", "c", "d"], size)
+        nfake = rnd.choice([1, 1, size])
+        d = {}
+        for i, x in enumerate(names):
+            d[fx.FakeStr(x) if i < nfake else x] = rnd.choice([1, "x", None, [1]])
+        wrap = rnd.choice(["plain", "plain", "list", "pair"])
+        out.append((k, {"plain": [d], "list": [[d]], "pair": [d, {"a": 1}]}[wrap]))
+    return out
+
+
+def equal_hashables(rnd, n):
+    """Sets / dict keys holding values that compare (and hash) equal but have different classes - 1, True, 1.0 and
+    tuples of them - typed one after the other in one process: any memoisation keyed by equality shows up."""
+    alts = [[1, True, 1.0], [0, False, 0.0], [(1, 2), (True, 2), (1.0, 2), (1, 2.0)], [((1,), "a"), ((True,), "a"), ((1.0,), "a")],
+            [(0, (1, 0)), (False, (True, 0)), (0.0, (1, False))]]
+    out = []
+    for _ in range(n):
+        fam = rnd.choice(alts)
+        order = rnd.sample(fam, len(fam))
+        k = rnd.choice([0, 2])
+        shape = rnd.choice(["set", "set", "set_in_list", "dictkey", "tupleset"])
+        for x in order:     # consecutive cases: the same equal value, a different class each time
+            v = {"set": {x}, "set_in_list": [{x}, {x, "s"}], "dictkey": {x: 1}, "tupleset": ({x}, 1)}[shape]
+            out.append((k, [v]))
+        out.append((k, [{"set": {x}, "set_in_list": [{x}], "dictkey": {x: 1}, "tupleset": ({x}, 1)}[shape] for x in order[:2]]))
+    return out
+
+
 def generate(seed, n_random, with_small_scope, extra_cases=()):
     """Returns (ct, cases) with cases = list of dict(k, vs, impl, term, nontrivial)."""
     ct = common.ClassTable()
@@ -73,6 +131,9 @@ def generate(seed, n_random, with_small_scope, extra_cases=()):
     if with_small_scope:
         raw.extend(small_scope(ct))
     raw.extend(nested_td_merges(rnd, max(200, n_random // 3)))
+    raw.extend(str_subclass_keys(rnd, max(60, n_random // 20)))
+    raw.extend(equal_hashables(rnd, max(30, n_random // 40)))
+    raw.extend(lying_keys(rnd, max(30, n_random // 40)))
     for i in range(n_random):
         k = rnd.choice(KS)
         raw.append((k, g.values()))
